@@ -43,3 +43,7 @@ claim("C40",
       "The real SSHConfig.parse runs on a symbolic line list (<=2 blocks quick / <=3 thorough of kind Host / Match all / Match [!]originalhost, patterns of 1..2 symbolic characters over {a,b,*,?,!}, 1..2 patterns per Host line, options present or absent, a repeated key) and the real lookup on a symbolic host name (<=2 chars); z3 proves User equals the value of the first block whose pattern list applies (independent glob/negation oracle term), HostName defaults to the looked-up name, IdentityFile accumulates in order without duplicates over every applicability vector, the documented tokens of HostName/IdentityFile/ProxyCommand/ControlPath expand (ProxyCommand none -> None), and get_hostnames reports every Host pattern also with Match blocks.",
       "Trusted: z3; regex line splitting and shlex are modelled (real text goes through from_text only in replays); fnmatch replaced by a glob model validated against the real fnmatch at start-up; environment lookups (user, home, local host name) fixed. Outside: Match host/user/exec/canonical/final, canonicalisation, %C and %l tokens, quoted values, longer names and patterns.",
       design="7 (C40)")
+claim("C23",
+      "Inductive step from an arbitrary allocation state (counter anywhere in [0,2^24), 0..2 quick / 0..4 thorough live channels with arbitrary distinct 24-bit ids, all solver variables): two consecutive real Transport._next_channel() calls with no registration in between (the window in which a peer open has reserved an id but released the lock) return ids that are not live, differ from each other, fit 24 bits, and leave the counter one past the last id; the same is proved for the id used by the real open_channel() and by the real _parse_channel_open() for every channel kind (session, direct-tcpip, x11, agent, forwarded-tcpip), which register exactly one channel under that id, or none when the application refuses.",
+      "Trusted: z3; the channel tables are association lists in symbolic runs (the real ChannelMap hashes in C) and the real ChannelMap in replays; Transport is built without a socket. Thread interleavings inside _next_channel are excluded by Transport.lock (held at every call site, checked by reading).",
+      design="7 (C23)")
